@@ -155,7 +155,7 @@ META["C01"] = {
 
 META["C02"] = {
     "title": "After unsubscribe() returns the subscriber is never called again",
-    "rule": "cases = (random pipeline biased to scheduler-using operators, timed scripts, schedule seed, cut step, unsubscribe() | guard drop). A dry run finds the schedule length and the step of the first terminal; the cut is then placed uniformly before the terminal (5/6) or anywhere (1/6). After the cut the explorer keeps going: remaining events are injected, every pending timer fired, every ready task run. Non-trivial: cut before the terminal while a timer was pending, a task ready, or script events still to come; distinct = hash(pipeline, scripts, flavour, cut step, schedule seed). cut_* counters give the histogram of where cuts fell. A share of the cases (counter runs_on_the_real_LocalPool) is built with the library's own `impl Scheduler for futures::executor::LocalSpawner` and run on the real futures LocalPool (run_until_stalled / try_run_one) instead of the harness executor. In a third of the cases every finalize callback that runs while unsubscribe() is in progress pushes one more item into hot input 0 (user code acting during the teardown; counter cuts_with_finalize_callbacks_emitting_during_teardown). Half of the guard cases leave the guard's scope by a panic that is caught further up (the guard is dropped by the unwinder). Sources that cannot be cancelled (counters cuts_above_a_source_that_cannot_be_cancelled, deaf_cuts_with_source_events_still_to_come): a harness stage right above the hot source swallows the unsubscription, so the source keeps pushing into the pipeline after unsubscribe() returned ('whatever its sources do afterwards'); pipelines source . deaf . [transparent] . observe_on | delay(0|1|5 ms|250|1500 us) . [one single-input operator], cut at a random step: nothing may reach the subscriber afterwards, neither what was queued nor what arrives later.",
+    "rule": "cases = (random pipeline biased to scheduler-using operators, timed scripts, schedule seed, cut step, unsubscribe() | guard drop). A dry run finds the schedule length and the step of the first terminal; the cut is then placed uniformly before the terminal (5/6) or anywhere (1/6). After the cut the explorer keeps going: remaining events are injected, every pending timer fired, every ready task run. Non-trivial: cut before the terminal while a timer was pending, a task ready, or script events still to come; distinct = hash(pipeline, scripts, flavour, cut step, schedule seed). cut_* counters give the histogram of where cuts fell. A share of the cases (counter runs_on_the_real_LocalPool) is built with the library's own `impl Scheduler for futures::executor::LocalSpawner` and run on the real futures LocalPool (run_until_stalled / try_run_one) instead of the harness executor. In a third of the cases every finalize callback that runs while unsubscribe() is in progress pushes one more item into hot input 0 (user code acting during the teardown; counter cuts_with_finalize_callbacks_emitting_during_teardown). Half of the guard cases leave the guard's scope by a panic that is caught further up (the guard is dropped by the unwinder). Sources that cannot be cancelled (counters cuts_above_a_source_that_cannot_be_cancelled, deaf_cuts_with_source_events_still_to_come): a harness stage right above the hot source swallows the unsubscription, so the source keeps pushing into the pipeline after unsubscribe() returned ('whatever its sources do afterwards'); pipelines source . deaf . [transparent] . observe_on | delay(0|1|5 ms|250|1500 us) . [one single-input operator], cut at a random step: nothing may reach the subscriber afterwards, neither what was queued nor what arrives later. A direct battery (counter cuts_after_a_scheduled_task_panicked, 12 cases on the real LocalPool) unsubscribes (or drops the guard of) an observe_on / delay(0) / delay(1ms) subscription one of whose scheduled tasks had panicked in the subscriber's handler (caught by the scheduler) while later tasks are pending; the unsubscribe call itself is wrapped in catch_unwind; nothing is delivered afterwards.",
     "assumptions": COMMON_ASSUME + [
         "above a source that cannot be cancelled only deliveries that pass through a scheduled task are owed silence; delay forwards an ERROR synchronously (errors are not delayed, by design), so failing uncancellable sources are paired with observe_on only",
         "deliveries are judged by their logical begin-stamp against the stamp taken when unsubscribe() returned (single-threaded part: nothing can be in flight at that moment)",
@@ -165,7 +165,7 @@ META["C02"] = {
     "level_text": "Exploration: every sampled (pipeline, schedule, cut point) is executed and monitored; held on the executions counted in the evidence.",
     "level_note": "Trusted: harness probe, virtual clock, arena executor, baton scheduler.",
     "design_ref": "DESIGN.md §5 C02",
-    "require": {"quick": {"cut_with_pending_timer": 2000, "cut_with_ready_task": 1000, "cuts_above_a_source_that_cannot_be_cancelled": 40000, "deaf_cuts_with_source_events_still_to_come": 10000}, "thorough": {"cut_with_pending_timer": 50000, "cuts_above_a_source_that_cannot_be_cancelled": 2000000}},
+    "require": {"quick": {"cut_with_pending_timer": 2000, "cut_with_ready_task": 1000, "cuts_above_a_source_that_cannot_be_cancelled": 40000, "deaf_cuts_with_source_events_still_to_come": 10000, "cuts_after_a_scheduled_task_panicked": 12}, "thorough": {"cut_with_pending_timer": 50000, "cuts_above_a_source_that_cannot_be_cancelled": 2000000}},
 }
 
 META["C05"] = {
@@ -255,7 +255,7 @@ META["C15"] = {
 
 META["C20"] = {
     "title": "group_by sends every item to exactly one group, in order",
-    "rule": "cases = (key function in {constant, identity, mod 2, mod 3}, script, group subject type Subject|SubjectThreads, hot Subject or cold create source). Enumerated: every script over {0,1,2,3} up to length 5 quick / 7 thorough x terminal {none, complete, error}; plus seeded random scripts up to length 8/12 with post-terminal events. A probe is attached to each group inside the outer observer's next (as the group is announced). Hot cases are additionally flattened back through group_by+flat_map and compared with the source. group_by takes an FnMut: every enumerated script also runs with stateful discriminators (key of the i-th item handed over = i/n for n in 1..3, whatever the item; counter cases_with_a_stateful_discriminator), as does a fifth of the random scripts. A third of the random scripts and half of the stateful enumerated ones use a key type whose Hash is coarser than its Eq (all even keys collide, all odd keys collide; counter cases_with_colliding_key_hashes); a third attach a second subscriber to every group ahead of the probe and unsubscribe it at once (counter cases_with_a_closed_subscriber_ahead_in_each_group). A quarter of the hot plain-key cases subscribe each group only after 0-2 further source events (counter cases_with_groups_subscribed_late): the group is owed the later items of its key and the terminal. In a quarter of the cases the observer of the stream of groups reports finished as soon as any group subscriber has received a terminal (a flattening consumer): every group must still get the terminal. In another quarter the consumer of the stream of groups finishes after n announcements (take(n)-like; counter cases_where_the_outer_observer_finishes_after_n_groups): groups announced until then keep receiving the items of their keys in order (a prefix at least up to the point where the consumer finished; terminals to them may be withheld), no group is announced twice and nothing is announced afterwards. Late group subscriptions are also made twice at the same moment (twin subscribers): both are owed the same items. Non-trivial: at least two groups and one group with at least two items; distinct = hash(case).",
+    "rule": "cases = (key function in {constant, identity, mod 2, mod 3}, script, group subject type Subject|SubjectThreads, hot Subject or cold create source). Enumerated: every script over {0,1,2,3} up to length 5 quick / 7 thorough x terminal {none, complete, error}; plus seeded random scripts up to length 8/12 with post-terminal events. A probe is attached to each group inside the outer observer's next (as the group is announced). Hot cases are additionally flattened back through group_by+flat_map and compared with the source. group_by takes an FnMut: every enumerated script also runs with stateful discriminators (key of the i-th item handed over = i/n for n in 1..3, whatever the item; counter cases_with_a_stateful_discriminator), as does a fifth of the random scripts. A third of the random scripts and half of the stateful enumerated ones use a key type whose Hash is coarser than its Eq (all even keys collide, all odd keys collide; counter cases_with_colliding_key_hashes); a third attach a second subscriber to every group ahead of the probe and unsubscribe it at once (counter cases_with_a_closed_subscriber_ahead_in_each_group). A quarter of the hot plain-key cases subscribe each group only after 0-2 further source events (counter cases_with_groups_subscribed_late): the group is owed the later items of its key and the terminal. In a quarter of the cases the observer of the stream of groups reports finished as soon as any group subscriber has received a terminal (a flattening consumer): every group must still get the terminal. In another quarter the consumer of the stream of groups finishes after n announcements (take(n)-like; counter cases_where_the_outer_observer_finishes_after_n_groups): groups announced until then keep receiving the items of their keys in order (every item: no source used here consults is_finished before an item; only the terminal to them may be withheld), no group is announced twice and nothing is announced afterwards. Late group subscriptions are also made twice at the same moment (twin subscribers): both are owed the same items. Half of the plain hot pipelines have a transparent map in front of group_by (an operator between a push source and group_by must not swallow items once the groups' consumer has finished). A direct battery (counter cases_with_a_group_subscriber_that_panics, 3 scripts, local form): a group's subscriber panics on one item, the application catches the panic around the source call and goes on: no key is announced twice, the groups get the later items of their keys and the terminal. Non-trivial: at least two groups and one group with at least two items; distinct = hash(case).",
     "assumptions": COMMON_ASSUME + [
         "the relative order of the groups' terminals and the outer terminal is not part of the property and not checked",
         "'the key of an item' is what the discriminator returns when it is applied once to every source item in source order (it is an FnMut in the API); the pure functions of the stated family cannot tell, the stateful ones can",
@@ -264,7 +264,7 @@ META["C20"] = {
     "level_text": "Exploration: enumerated scripts x key functions plus random scripts, each compared with the partition model.",
     "level_note": "Trusted: partition model in harness/src/props/c20.rs, probes.",
     "design_ref": "DESIGN.md §5 C20",
-    "require": {"quick": {"group_subject_types": 2, "cases_with_a_stateful_discriminator": 20000, "cases_with_colliding_key_hashes": 10000, "cases_with_a_closed_subscriber_ahead_in_each_group": 10000, "cases_where_the_outer_observer_finishes_after_n_groups": 10000}, "thorough": {"group_subject_types": 2, "cases_with_a_stateful_discriminator": 500000}},
+    "require": {"quick": {"group_subject_types": 2, "cases_with_a_stateful_discriminator": 20000, "cases_with_colliding_key_hashes": 10000, "cases_with_a_closed_subscriber_ahead_in_each_group": 10000, "cases_where_the_outer_observer_finishes_after_n_groups": 10000, "cases_with_a_group_subscriber_that_panics": 3}, "thorough": {"group_subject_types": 2, "cases_with_a_stateful_discriminator": 500000}},
 }
 
 META["C16"] = {
